@@ -344,7 +344,7 @@ pub mod vx_ids {
                 result@.len() > 0 ==> vx_i > 0 && result@.last().0.end <= s[vx_i - 1].0.end
                     && (result@.last().0.end == s[vx_i - 1].0.end ==> result@.last().1 == s[vx_i - 1].1),
             decreases self.0.len() - vx_i,
-        @before 1 `let mut start = range.start;`
+        @before 1 `stmt:let start`
             let ghost k: int = vx_i - 1;
             proof {
                 assert(*range == s[k].0 && *value == s[k].1);
@@ -388,19 +388,19 @@ pub mod vx_ids {
             ensures
                 start >= end || j >= o.len() || o[j as int].0.start >= end,
             decreases other.len() - j,
-        @before 1 `if other_range.start > start {`
+        @before 3 `stmt:if`
             let ghost r0 = result@;
             let ghost p0 = start;
             proof {
                 assert(*other_range == o[j as int].0);
                 assert(o[j as int].0.start < o[j as int].0.end);
             }
-        @after 1 `result.push((start..other_range.start, value.clone()));`
+        @after 1 `stmt:call push`
             proof {
                 assert(result@ == r0.push((start..other_range.start, *value)));
                 lemma_excl_piece(r0, s, o, k, j as int, start, other_range.start, *value);
             }
-        @after 1 `start = start.max(other_range.end);`
+        @after 1 `stmt:assign start`
             proof {
                 let q = if other_range.start > p0 { other_range.start as int } else { p0 as int };
                 let p1 = min2(start as int, end as int);
@@ -411,14 +411,14 @@ pub mod vx_ids {
                 }
                 assert(excl_inv(result@, s, o, p1));
             }
-        @before 1 `if start < end {`
+        @before 5 `stmt:if`
             let ghost r1 = result@;
-        @after 1 `result.push((start..end, value.clone()));`
+        @after 2 `stmt:call push`
             proof {
                 assert(result@ == r1.push((start..end, *value)));
                 lemma_excl_piece(r1, s, o, k, j as int, start, end, *value);
             }
-        @after 1 `i = j;`
+        @after 2 `stmt:assign i`
             proof {
                 assert(pos(s, vx_i as int) == end);
             }
@@ -455,7 +455,7 @@ pub mod vx_ids {
                 forall|m: int| 0 <= m < i ==> (#[trigger] o[m]).0.end <= pos(s, vx_i as int),
                 result@.len() > 0 ==> result@.last().0.end <= pos(s, vx_i as int),
             decreases self.0.len() - vx_i,
-        @after 1 `vx_i += 1;`
+        @after 1 `stmt:assign vx_i`
             let ghost k: int = vx_i - 1;
             proof {
                 assert(*range == s[k].0 && *value == s[k].1);
@@ -476,7 +476,7 @@ pub mod vx_ids {
                 i <= o.len(),
                 forall|m: int| 0 <= m < i ==> (#[trigger] o[m]).0.end <= range.start,
             decreases other.len() - i,
-        @after 1 `let mut j = i;`
+        @after 1 `stmt:let j`
             let ghost mut p: int = range.start as int;
         @loop 3
             invariant_except_break
@@ -499,7 +499,7 @@ pub mod vx_ids {
             ensures
                 j >= o.len() || o[j as int].0.start >= range.end || p == range.end,
             decreases other.len() - j,
-        @before 1 `let lo = `
+        @before 1 `stmt:let lo`
             proof {
                 assert(*other_range == o[j as int].0 && *other_value == o[j as int].1);
                 assert(o[j as int].0.start < o[j as int].0.end);
@@ -508,7 +508,7 @@ pub mod vx_ids {
                     assert(o[j as int].0.end <= o[j + 1].0.start);
                 }
             }
-        @before 1 `if lo < hi {`
+        @before 3 `stmt:if`
             let ghost r0 = result@;
             proof {
                 if lo < hi {
@@ -519,26 +519,26 @@ pub mod vx_ids {
                     assert(isect_inv(r0, s, o, lo as int));
                 }
             }
-        @after 1 `last.0.end = hi;`
+        @after 1 `stmt:assign last`
             proof {
                 let n = r0.len() - 1;
                 assert(result@ =~= r0.update(n, (r0[n].0.start..hi, r0[n].1)));
                 lemma_isect_extend(r0, s, o, k, j as int, lo, hi, merged, result@);
                 p = hi as int;
             }
-        @after 1 `result.push((lo..hi, merged));`
+        @after 2 `stmt:call push`
             proof {
                 assert(result@ == r0.push((lo..hi, merged)));
                 lemma_isect_push(r0, s, o, k, j as int, lo, hi, merged);
                 p = hi as int;
             }
-        @after 2 `result.push((lo..hi, merged));`
+        @after 4 `stmt:call push`
             proof {
                 assert(result@ == r0.push((lo..hi, merged)));
                 lemma_isect_push(r0, s, o, k, j as int, lo, hi, merged);
                 p = hi as int;
             }
-        @after 1 `i = j;`
+        @after 2 `stmt:assign i`
             proof {
                 assert forall|c: int| p <= c < range.end implies !covers(o, c) by {
                     lemma_not_covered(o, j as int, c);
